@@ -72,13 +72,13 @@ T_CmdFlush ==            \* cmdFlush / cmdSync
   /\ ~wclosed
   /\ \E k \in Split : FieldsK(k) /\
         /\ q' = Rest(k) /\ shadow' = DrainedOf(QQ(k)).s /\ file' = file \o DrainedOf(QQ(k)).b /\ buf' = <<>>
-  /\ UNCHANGED <<cpc, cver, memv, acked, mode, wclosed, wdead, ackpre, snap, apc, img, pend, nadmin, nflush, dev>>
+  /\ UNCHANGED <<cpc, cver, memv, acked, mode, wclosed, wdead, ackpre, snap, apc, img, pre, pend, nadmin, nflush, dev>>
 
 T_CmdNoop ==             \* cmdErr / cmdIsSnapshotActive: only the drain
   /\ IsEv("cmd") /\ Ev.kind \in {"err", "isactive"} /\ Consume
   /\ \E k \in Split : FieldsK(k) /\
         /\ q' = Rest(k) /\ shadow' = DrainedOf(QQ(k)).s /\ buf' = DrainedOf(QQ(k)).b
-  /\ UNCHANGED <<cpc, cver, memv, acked, mode, wclosed, wdead, ackpre, file, snap, apc, img, pend, nadmin, nflush, dev>>
+  /\ UNCHANGED <<cpc, cver, memv, acked, mode, wclosed, wdead, ackpre, file, snap, apc, img, pre, pend, nadmin, nflush, dev>>
 
 T_CmdBegin ==
   /\ IsEv("cmd") /\ Ev.kind = "begin" /\ Consume
@@ -86,12 +86,13 @@ T_CmdBegin ==
      IF mode
      THEN \* refused: snapshot mode already active (overlapping snapshot + compaction requests)
           /\ q' = Rest(k) /\ shadow' = DrainedOf(QQ(k)).s /\ buf' = DrainedOf(QQ(k)).b
-          /\ UNCHANGED <<file, mode, apc, nadmin, dev>>
+          /\ UNCHANGED <<file, mode, apc, nadmin, dev, pre>>
      ELSE /\ apc = "idle"
           /\ nadmin' = nadmin + 1
           /\ q' = Rest(k) /\ file' = file \o DrainedOf(QQ(k)).b /\ buf' = <<>> /\ shadow' = <<>> /\ mode' = TRUE
           /\ apc' = "begun"
-          /\ dev' = IF InFlight THEN dev \cup {"gap"} ELSE dev
+          /\ dev' = IF InFlight /\ ~CaptureWaits THEN dev \cup {"gap"} ELSE dev
+          /\ pre' = IF CaptureWaits THEN {c \in Clients : cpc[c] # "idle"} ELSE {}
   /\ UNCHANGED <<cpc, cver, memv, acked, wclosed, wdead, ackpre, snap, img, pend, nflush>>
 
 \* which procedure runs is learnt from its first phase event
@@ -100,7 +101,7 @@ T_PhaseBegin ==
   /\ Consume
   /\ apc = "begun"
   /\ apc' = (IF Ev.e = "snap.begin" THEN "snap.begun" ELSE "rw.begun")
-  /\ UNCHANGED <<cpc, cver, memv, acked, q, buf, shadow, mode, wclosed, wdead, ackpre, file, snap, img, pend, nadmin, nflush, dev>>
+  /\ UNCHANGED <<cpc, cver, memv, acked, q, buf, shadow, mode, wclosed, wdead, ackpre, file, snap, img, pre, pend, nadmin, nflush, dev>>
 
 T_Captured ==            \* snap.tmp_written / rw.captured: the capture (silent) has happened
   /\ (IsEv("snap.tmp_written") /\ apc = "snap.captured") \/ (IsEv("rw.captured") /\ apc = "rw.captured")
@@ -142,7 +143,7 @@ T_CmdEndReappend ==
         /\ q' = Rest(k) /\ shadow' = <<>> /\ mode' = FALSE
         /\ file' = file \o DrainedOf(QQ(k)).b \o DrainedOf(QQ(k)).s /\ buf' = <<>>
         /\ apc' = "idle"
-        /\ UNCHANGED <<cpc, cver, memv, acked, wclosed, wdead, ackpre, snap, img, pend, nadmin, nflush, dev>>
+        /\ UNCHANGED <<cpc, cver, memv, acked, wclosed, wdead, ackpre, snap, img, pre, pend, nadmin, nflush, dev>>
 
 T_CmdClose ==
   /\ IsEv("cmd") /\ Ev.kind = "close" /\ Consume
@@ -165,7 +166,7 @@ S_TickFlush ==
         /\ file' = file \o SubSeq(buf \o q, 1, k)
         /\ buf' = <<>>
         /\ q' = SubSeq(buf \o q, k + 1, Len(buf \o q))
-  /\ UNCHANGED <<cpc, cver, memv, acked, shadow, mode, wclosed, wdead, ackpre, snap, apc, img, pend, nadmin, nflush, dev>>
+  /\ UNCHANGED <<cpc, cver, memv, acked, shadow, mode, wclosed, wdead, ackpre, snap, apc, img, pre, pend, nadmin, nflush, dev>>
 
 Silent ==
   /\ l <= Len(TraceLog)
